@@ -110,3 +110,4 @@ def run(chk, st, tier):
                             "embedded-trailer witness. distinct counts files; evaluations counts prefixes.")
     chk.coverage["explanation"] = ("C11_short_rejected / C11_bad_length_rejected are proved; the unconditional statement is false for any footer-last format: C11_refuted (coq/props/C11.v) exhibits a valid file with an accepted strict prefix, "
                                    "replayed here on the real reader as the known finding.")
+    chk.assumptions += ['thrift decoding of arbitrary bytes is library behaviour; compared with the model only where the verdict does not depend on it']
